@@ -263,4 +263,80 @@ example : (match layoutTree (.box 200 .ltr) (some 1000) 0 .ltr 16 exDocTree with
     | .error _ => false) = true := by
   decide +kernel
 
+/-! ### clauses (a)(c) for documents: the used height of the root element -/
+
+private theorem remakePage_blank (d : PM.Doc) (index : Nat) (resume : Option PM.Resume) (np : PM.NextPage)
+    (right : Bool) (p : PM.Page) (hp : PM.remakePage d index resume np right = some p) :
+    p.type.blank = PM.isBlank (PM.requestedSide d.rootLtr np.brk) right := by
+  unfold PM.remakePage at hp
+  dsimp only at hp
+  split at hp
+  · simp at hp
+  · simp only [Option.some.injEq] at hp
+    subst hp
+    rfl
+
+private theorem toPBox_root_st (g : Geo) (u : Used) (kids : List HTree) (root : PM.PBox) (n : Nat)
+    (h : toPBox true 0 (.mk g u kids) = .ok (root, n)) :
+    root.st.minH = u.minHeight ∧ maxOfExt u.maxHeight = .ok root.st.maxH := by
+  simp only [toPBox, bind, Except.bind] at h
+  cases hst : pstyleOf g u true with
+  | error e => simp [hst] at h
+  | ok st =>
+    simp only [hst] at h
+    cases hk : toPBoxKids 1 kids with
+    | error e => simp [hk] at h
+    | ok ksn =>
+      simp only [hk, pure, Except.pure, Except.ok.injEq, Prod.mk.injEq] at h
+      obtain ⟨rfl, _⟩ := h
+      unfold pstyleOf at hst
+      cases hm : maxOfExt u.maxHeight with
+      | error e => simp [hm, bind, Except.bind] at hst
+      | ok mx =>
+        simp only [hm, bind, Except.bind, pure, Except.pure, Except.ok.injEq] at hst
+        subst hst
+        exact ⟨rfl, rfl⟩
+
+/-- (a)(c) **The used height of the root element, documents**: whatever its content, its margins and the
+units its height, min-height and max-height were given in, the root element's used height (`h` of its entry,
+the first one, in the document's geometry) is at least its used `min-height` and, when that is not above the
+used `max-height`, at most the used `max-height` — `max(min(h, max-height), min-height)` of
+`block_container_layout`, seen from the document. -/
+theorem document_root_height (pageH dy : Rat) (g : Geo) (u : Used) (kids : List HTree) (vs : List VGeo)
+    (h : verticalOf pageH dy (.mk g u kids) = .ok vs) :
+    ∃ v rest, vs = v :: rest ∧ v.g = g ∧ u.minHeight ≤ v.h ∧
+      (∀ m, u.maxHeight = .fin m → u.minHeight ≤ m → v.h ≤ m) := by
+  obtain ⟨root, n, p, hroot, hrp, hres, _, hvs, _⟩ := verticalOf_refines_pm pageH dy _ vs h
+  obtain ⟨hmin, hmax⟩ := toPBox_root_st g u kids root n hroot
+  have hblank : p.type.blank = false := by
+    rw [remakePage_blank _ _ _ _ _ p hrp]
+    rfl
+  obtain ⟨c, _, hfrag, hresume⟩ := PM.remakePage_root _ 0 none _ _ p hrp
+  have hsrc : PM.pageSource { pageH, rootLtr := true, root } p = root := by
+    simp [PM.pageSource, hblank]
+  rw [hsrc] at hfrag hresume
+  have hr : (PM.layoutBox c root 0 0 0 none false true []).resume = none := by
+    rw [← hresume hblank]; exact hres
+  obtain ⟨hb1, hb2⟩ := C05Pm.height_bounds c root 0 0 0 none false true [] p.root hfrag hr
+  -- the first entry of the geometry is the root fragment's
+  have hff : ∃ rest, fragFlat p.root = p.root.geo :: rest := by
+    cases p.root <;> exact ⟨_, rfl⟩
+  obtain ⟨frest, hff⟩ := hff
+  rw [hff] at hvs
+  simp only [HTree.flat, zipGeo] at hvs
+  refine ⟨_, _, hvs, rfl, ?_, ?_⟩
+  · rw [← hmin]; exact hb1
+  · intro m hm hle
+    rw [hm] at hmax
+    simp only [maxOfExt, Except.ok.injEq] at hmax
+    exact hb2 m hmax.symm (by rw [hmin]; exact hle)
+
+/-- Non-vacuity on the example document of this file: the root element (`html`) is 104.4px high. -/
+example : (match layoutTree (.box 200 .ltr) (some 1000) 0 .ltr 16 exDocTree with
+    | .ok t => (match verticalOf 1000 0 t with
+        | .ok (v :: _) => decide (v.h = (522 : Rat) / 5)
+        | _ => false)
+    | .error _ => false) = true := by
+  decide +kernel
+
 end Wp.C05Tree
